@@ -80,6 +80,19 @@ Definition nkind_of (tg : str) : nkind :=
 Definition first_str (x : option (list str)) : str :=
   match x with Some (v :: _) => v | _ => [] end.
 
+(* the values the specification expects (fixed here; Doc/PostProofs.v proves that the tables regenerated from
+   base.py - Gen/Render.v - are these, so a change of the source tables breaks the proof) *)
+Definition spec_align : list (str * str) := Eval vm_compute in
+  [(lit "text-align:left", lit "text-left"); (lit "text-align:right", lit "text-right");
+   (lit "text-align:center", lit "text-center")].
+Definition spec_style_map : list (str * str) := Eval vm_compute in
+  [(lit "decimal", lit "arabic"); (lit "lower-alpha", lit "loweralpha"); (lit "upper-alpha", lit "upperalpha");
+   (lit "lower-roman", lit "lowerroman"); (lit "upper-roman", lit "upperroman")].
+Definition spec_default_style : str := Eval vm_compute in lit "arabic".
+Definition spec_hardbreak : list (str * str) := Eval vm_compute in
+  [(lit "html", lit "<br />" ++ [10]); (lit "latex", lit "\\" ++ [10])].
+Definition spec_s_raws : list (str * str) := Eval vm_compute in [(lit "html", lit "<s>"); (lit "html", lit "</s>")].
+
 Section Skel.
   Variable D : str -> str.     (* canonical form of a link destination *)
   Variable B : backend.
@@ -196,14 +209,14 @@ Section Skel.
 
   Definition align_of (t : tok) : option str :=
     match attr_get t a_style with
-    | Some s => assoc s table_align
+    | Some s => assoc s spec_align
     | None => None
     end.
 
   Definition enum_style (t : tok) : str :=
     match attr_get t a_style with
-    | Some s => match assoc s olist_style_map with Some e => e | None => olist_default_style end
-    | None => olist_default_style
+    | Some s => match assoc s spec_style_map with Some e => e | None => spec_default_style end
+    | None => spec_default_style
     end.
 
   Fixpoint skel_tok (t : tok) : list skel :=
@@ -215,10 +228,10 @@ Section Skel.
         | KInline => kids
         | KText => [SText (content t)]
         | KSoftbreak => [SText [10]]
-        | KHardbreak => raw_skels hardbreak_raws
+        | KHardbreak => raw_skels spec_hardbreak
         | KEm => [SBox CEm kids]
         | KStrong => [SBox CStrong kids]
-        | KS => match s_raws with
+        | KS => match spec_s_raws with
                 | [r1; r2] => raw_skels [r1] ++ kids ++ raw_skels [r2]
                 | _ => [SUnknown ty]
                 end
